@@ -59,6 +59,15 @@ def cal_pool(base_day):
         ("wk+bounded", cal.op("+", W([0, 1, 2, 3, 4], cal.q(4)),
                               cal.fixed(cal.q(2), (b + 1) * DAY, (b + 3) * DAY + 1439)), True, False),
         ("bounded", W([0, 1, 2, 3, 4, 5, 6], cal.q(4), max(b - 40, 0) * DAY, (b + 45) * DAY + 1439), False, False),
+        # a bounded factor: outside its window a FixedCalendar contributes 0, so the product is 0 there
+        ("wk*window", cal.op("*", W([0, 1, 2, 3, 4], cal.q(8)),
+                             cal.fixed(cal.q(1, 2), max(b - 30, 0) * DAY, (b + 100) * DAY + 1439)), False, False),
+        # a bounded FIRST operand of a sum / difference: no information outside its validity, the rest counts
+        ("bounded+dated", cal.op("+", W([0, 1, 2, 3, 4], cal.q(4), (b - 1) * DAY, (b + 4) * DAY + 1439),
+                                 W([0, 1, 2, 3, 4, 5], cal.q(2))), True, False),
+        # validity starting inside the project window (the first valid day is a start candidate)
+        ("starts-later", cal.op("|", W([0, 1, 2, 3, 4, 5, 6], cal.q(8), (b + 2) * DAY, None),
+                                W([0, 1, 2, 3, 4], cal.q(4), None, (b + 1) * DAY + 1439)), True, False),
         ("zero", W([0, 1, 2, 3, 4, 5, 6], cal.q(0)), False, True),
         ("empty", D({}), False, True),
         ("fixed0", cal.fixed(cal.q(0)), False, True),
@@ -175,6 +184,8 @@ def gen_case(rng, direction, n, cid, opts=None):
         else:
             ext.append({"start": e_end - DAY, "end": e_end})
         tasks[rng.randint(1, n) - 1]["pre"].append(n + 1)
+        ext[0]["inwbs"] = rng.random() < 0.5
+        ext[0]["id"] = rng.choice(ids) if rng.random() < 0.4 else 9001      # may collide with a member's id
     # resources
     pool = cal_pool(base)
     names = ["A", "B", NONE_NAME]
@@ -195,6 +206,8 @@ def gen_case(rng, direction, n, cid, opts=None):
                                   "calname": "default"})
             used[nm] = len(resources)
         t["res"] = used[nm]
+    # eighths of a unit only where every capacity still gives whole-minute dates
+    eighths = all(r["supplied"] and r["calname"] in ("half", "all2", "mwf4", "wk*half") for r in resources)
     # attributes
     for i, t in enumerate(tasks, start=1):
         leaf = not t["kids"]
@@ -212,6 +225,9 @@ def gen_case(rng, direction, n, cid, opts=None):
             pass
         elif r < 0.17:
             t["est"] = q4(0)
+        elif eighths and rng.random() < 0.5:
+            fr = Fraction(rng.choice([1, 3, 5, 7, 9, 11, 25]), 8)         # more than two decimals: 0.125, 0.375, ...
+            t["est"] = [fr.numerator, fr.denominator]
         else:
             t["est"] = q4(rng.choice([1, 2, 3, 4, 4, 6, 8, 8, 10, 12, 16, 20, 24, 32, 40, 48]))
         r = rng.random()
@@ -270,12 +286,17 @@ def build_wbs(I, keep=None):
             kw["min_start"] = inst(t["minStart"])
         objs[i] = pj.Task(t["id"], name=None if t["id"] % 5 == 0 else "T%d" % t["id"], resource=rname_of(I["resources"][t["res"] - 1]["name"]),
                           estimate=qnum(t["est"]), spent=qnum(t["spent"]), milestone=t["ms"],
-                          tag="x%d" % i, **kw)
+                          tag="x%d" % i, note=None if i % 2 else "", **kw)
     exts = []
+    other = pj.WBS()
     for k, e in enumerate(I["ext"], start=1):
-        exts.append(pj.Task(9000 + k, name="ext%d" % k,
-                            start=None if e["start"] == MISSING else inst(e["start"]),
-                            end=None if e["end"] == MISSING else inst(e["end"])))
+        # an outside predecessor: free-standing or a member of another WBS; its id may equal a member's id
+        x = pj.Task(e.get("id", 9000 + k), name="ext%d" % k,
+                    start=None if e["start"] == MISSING else inst(e["start"]),
+                    end=None if e["end"] == MISSING else inst(e["end"]))
+        if e.get("inwbs"):
+            other.roots.append(x)
+        exts.append(x)
     w = pj.WBS()
 
     def attach(parent_list, numbers):
@@ -299,9 +320,10 @@ def build_wbs(I, keep=None):
     return w, objs, exts
 
 
-def make_scheduler(I):
+def make_scheduler(I, res=None):
     pj = common.pjplan()
-    res = [pj.Resource(rname_of(r["name"]), cal.build(r["expr"])) for r in I["resources"] if r["supplied"]]
+    if res is None:
+        res = [pj.Resource(rname_of(r["name"]), cal.build(r["expr"])) for r in I["resources"] if r["supplied"]]
     sub = _dt.timedelta(microseconds=I.get("submin", 0))
     if I["dir"] == "fwd":
         return pj.ForwardScheduler(start=inst(I["pstart"]) + sub, resources=res, balance_resources=I["balance"],
@@ -512,6 +534,16 @@ def execute(case):
     guarded(lambda: s6.calc(wv))
     o6, sc6 = guarded(lambda: s6.calc(w))
     case["rep"].append(slim(o6, sc6))
+    # (4) Resource objects that served ANOTHER calendar in an earlier calc (calendar replaced afterwards)
+    pj = common.pjplan()
+    other_cal = cal.weekly_list([0, 1, 2, 3, 4, 5, 6], cal.q(3))
+    robjs = [pj.Resource(rname_of(r["name"]), cal.build(other_cal)) for r in I["resources"] if r["supplied"]]
+    guarded(lambda: make_scheduler(I, robjs).calc(wv))
+    for ro, r in zip(robjs, [r for r in I["resources"] if r["supplied"]]):
+        ro.calendar = cal.build(r["expr"])
+    s7 = make_scheduler(I, robjs)
+    o7, sc7 = guarded(lambda: s7.calc(w))
+    case["rep"].append(slim(o7, sc7))
     # another clock value at or before the project start
     fends = [t["fend"] for t in I["tasks"] if t["fend"] != MISSING]
     now2 = I["now"] - 3 * DAY - 417 if case["id"] % 2 else I["pstart"]
